@@ -3,9 +3,12 @@ package trie
 // Harnesses for C10 (hex-prefix / nibble / key-byte conversions), package trie.
 
 // zzNibbles returns a slice of symbolic length n <= max whose elements are < 16.
-func zzNibbles(max int) []byte {
+func zzNibbles(max int) []byte { return zzNibblesRange(0, max) }
+
+// zzNibblesRange: symbolic length in [min, max].
+func zzNibblesRange(min, max int) []byte {
 	n := zzNondetInt()
-	zzAssume(n >= 0)
+	zzAssume(n >= min)
 	zzAssume(n <= max)
 	h := zzNondetBytesN(n)
 	for i := range h {
@@ -21,7 +24,7 @@ func zzClone(b []byte) []byte {
 }
 
 func zzH_C10_hex_compact_roundtrip() {
-	h := zzNibbles(zzBound("N"))
+	h := zzNibblesRange(zzBound("NMIN"), zzBound("N"))
 	n := len(h)
 	term := zzNondetBool()
 	hx := zzClone(h)
@@ -59,19 +62,22 @@ func zzH_C10_hex_compact_roundtrip() {
 func zzH_C10_compact_hex_roundtrip() {
 	m := zzNondetInt()
 	zzAssume(m >= 1)
+	zzAssume(m >= zzBound("MMIN"))
 	zzAssume(m <= zzBound("M"))
 	c := zzNondetBytesN(m)
 	flag := c[0] >> 4
 	zzAssume(flag <= 3)
 	zzAssume(zzImplies(flag&1 == 0, c[0]&0x0f == 0))
-	hx := compactToHex(zzClone(c))
+	hx := zzFixSlice(compactToHex(zzClone(c))) // the result starts at a flag-dependent offset
+	nibbles := true
 	for i := range hx {
 		if i == len(hx)-1 && flag >= 2 {
 			zzAssert(hx[i] == 16, "terminator present iff the leaf flag is set")
 		} else {
-			zzAssert(hx[i] < 16, "compactToHex yields nibbles")
+			nibbles = zzAll(nibbles, hx[i] < 16)
 		}
 	}
+	zzAssert(nibbles, "compactToHex yields nibbles")
 	zzAssert(hasTerm(hx) == (flag >= 2), "hasTerm reflects the leaf flag")
 	c2 := hexToCompact(hx)
 	zzAssert(zzBytesEq(c2, c), "hexToCompact(compactToHex(c)) == c for every valid compact key")
